@@ -82,7 +82,13 @@ impl<'a> Reader<'a> {
             self.begin = 0;
         }
 
-        let bytes = self.stdin.read(&mut self.buf[self.end..]).unwrap();
+        let bytes = loop {
+            match self.stdin.read(&mut self.buf[self.end..]) {
+                // transient by the `Read` contract: retry, like `read_exact`/`read_to_end` do
+                Err(e) if e.kind() == std::io::ErrorKind::Interrupted => continue,
+                result => break result.unwrap(),
+            }
+        };
         if bytes == 0 {
             self.eof = true;
         }
